@@ -390,11 +390,12 @@ Section Wrapper.
         assert (Hgrow : forall k0 v, dget k0 (our s) = Some v -> dget k0 (our s1) = Some v).
         { intros k0 v Hg. cbn. rewrite dget_dset_other; [exact Hg|]. intros ->. congruence. }
         unfold post. split; [exact A|]. split; [intros k0 v Hg; apply B, Hgrow, Hg|]. split.
-        { intros e0 [= <-] _ _ _. apply dmem_true. rewrite (B k ours); [discriminate|]. cbn. apply dget_dset_same. }
+        { intros e0 [= <-] _ _ _. pose proof (B k ours) as Hx. cbn in Hx. rewrite dget_dset_same in Hx.
+          specialize (Hx eq_refl). apply dmem_true. unfold k in Hx. rewrite Hx. discriminate. }
         split.
         * intros Hal. destruct (D Hal) as [D1 D2]. split; [exact D1|]. cbn. fold k.
           assert (Hdm : dmem k (our s) = false) by (now apply dmem_false). rewrite Hdm, Ef, D2.
-          unfold L, s1. cbn. rewrite (dkeys_dset_new _ _ _ Eo), <- app_assoc. reflexivity.
+          unfold L, s1. cbn [our queue]. rewrite (dkeys_dset_new _ _ _ Eo), <- app_assoc. reflexivity.
         * intros Hb Hh. unfold run_inner in H.
           destruct (inner (cc s1) (IHttp (hev_set_sid e ours))) as [[c2 o1]| |] eqn:Ei; cbn in H; try discriminate.
           apply (E _ _ eq_refl). destruct Hb as [B1 B2 B3 B4].
@@ -419,7 +420,7 @@ Section Wrapper.
         injection H as <- _. set (k := hev_sid e) in *.
         destruct Hq as [Qne Qks Qdj Qnd].
         unfold post. split.
-        { constructor; cbn.
+        { constructor; cbn [queue our cc their].
           - intros k0 l Hin. apply in_dset in Hin as [[-> ->]|Hin]; [|eauto].
             unfold enq. fold k. destruct (dget k (queue s)); [destruct l; discriminate|discriminate].
           - intros k0 l e0 Hin He0. apply in_dset in Hin as [[-> ->]|Hin]; [|eauto].
@@ -433,9 +434,9 @@ Section Wrapper.
             + now rewrite (dkeys_dset_old _ _ _ _ Eg).
             + rewrite (dkeys_dset_new _ _ _ Eg). apply nodup_snoc; [exact Qnd|]. now apply dget_none_keys. }
         split; [auto|]. split; [intros e0 [= <-] _ Hf; congruence|]. split.
-        * intros _. split; [now right|]. cbn. fold k.
+        * intros _. split; [now right|]. unfold Lspec. fold k.
           assert (Hdm : dmem k (our s) = false) by (now apply dmem_false). rewrite Hdm, Ef.
-          unfold L. cbn. unfold dmem. destruct (dget k (queue s)) as [l0|] eqn:Eg.
+          unfold L. cbn [our queue]. unfold dmem. destruct (dget k (queue s)) as [l0|] eqn:Eg.
           -- now rewrite (dkeys_dset_old _ _ _ _ Eg).
           -- rewrite (dkeys_dset_new _ _ _ Eg). now rewrite app_assoc.
         * intros [B1 B2 B3 B4] Hh. constructor; cbn; auto.
@@ -459,10 +460,41 @@ Section Wrapper.
       set (s1 := mkCl (cc s) (dset (hev_sid e) (next_id (cc s)) (our s)) (dset (next_id (cc s)) (hev_sid e) (their s)) (queue s)) in *.
       assert (Hq1 : qinv s1).
       { destruct Hq as [Qne Qks Qdj Qnd]. constructor; cbn; auto. intros k0 Hin.
-        rewrite dget_dset_other; [auto|]. intros ->. apply (Hap e eq_refl Hn Ef). exact Hin. }
+        rewrite dget_dset_other; [auto|]. intros Heq. subst k0. apply (Hap e eq_refl Hn Ef). exact Hin. }
       destruct (run_inner_good f (all_good f) _ _ _ _ H Hq1) as (_ & B & _).
       apply B. cbn. apply dget_dset_same.
     - injection H as <- _. cbn in Hm. apply dmem_true in Hm. congruence.
+  Qed.
+
+  (* repaired wrapper: once the connection is gone nothing is left waiting *)
+  Definition Dq (s : client) : Prop := fq = true -> is_dead (cc s) = true -> queue s = [].
+
+  Lemma replay_Dq f (G : forall s i s' o, cl_event f s i = Ok (s', o) -> Dq s -> Dq s') :
+    forall evs s s' o, replay_with (cl_event f) s evs = Ok (s', o) -> Dq s -> Dq s'.
+  Proof. induction evs as [|e t IH]; intros s s' o H Hd; cbn in H; [now injection H as <- _|].
+    destruct (cl_event f s (IHttp e)) as [[s1 o1]| |] eqn:E1; cbn in H; try discriminate.
+    destruct (replay_with (cl_event f) s1 t) as [[s2 o2]| |] eqn:E2; cbn in H; try discriminate.
+    injection H as <- _. eapply IH; eauto. Qed.
+
+  Lemma cl_event_Dq : forall f s i s' o, cl_event f s i = Ok (s', o) -> Dq s -> Dq s'.
+  Proof.
+    induction f as [|f IH]; intros s i s' o H Hd; [discriminate|]. rewrite cl_event_unfold in H.
+    destruct (is_dead (cc s)) eqn:Ed; [now injection H as <- _|].
+    assert (R : forall s1 i1, is_dead (cc s1) = false -> run_inner f s1 i1 = Ok (s', o) -> Dq s').
+    { intros s1 i1 Ed1 Hr. unfold run_inner in Hr.
+      destruct (inner (cc s1) i1) as [[c2 o1]| |]; cbn in Hr; try discriminate.
+      destruct (relabel_all (their s1) o1) as [o2| |]; cbn in Hr; try discriminate.
+      unfold tail in Hr. cbn [queue cc our their] in Hr. destruct (queue s1) as [|[qsid evs] rest] eqn:Eq.
+      - injection Hr as <- _. intros _ _. reflexivity.
+      - destruct (fq && is_dead c2) eqn:Efq; [injection Hr as <- _; intros _ _; reflexivity|].
+        destruct (has_free c2).
+        + destruct (replay_with (cl_event f) (mkCl c2 (our s1) (their s1) rest) evs) as [[s4 o4]| |] eqn:Er; cbn in Hr; try discriminate.
+          injection Hr as <- _. eapply (replay_Dq f IH); [exact Er|]. intros Hf Hdd. cbn in Hdd. rewrite Hf, Hdd in Efq. discriminate.
+        + injection Hr as <- _. intros Hf Hdd. cbn in Hdd. rewrite Hf, Hdd in Efq. discriminate. }
+    destruct i as [|e|l|]; try exact (R _ _ Ed H).
+    destruct (dget (hev_sid e) (our s)); [exact (R _ _ Ed H)|].
+    destruct (negb (has_free (cc s))); [injection H as <- _; intros _ Hdd; cbn in Hdd; congruence|].
+    exact (R (mkCl (cc s) (dset (hev_sid e) (next_id (cc s)) (our s)) (dset (next_id (cc s)) (hev_sid e) (their s)) (queue s)) _ Ed H).
   Qed.
 
   (* ---------------- histories *)
@@ -490,10 +522,61 @@ Section Wrapper.
       destruct (all_good _ _ _ _ _ Hs Hq Hap) as (Hq' & _ & _ & Ha' & Hb').
       split; [exact Hq'|]. split.
       + intros Hal. destruct (Ha' Hal) as [HQ' HL']. split; [exact HQ'|].
-        rewrite arrivals_snoc. destruct i; cbn in *; try congruence.
-        rewrite HL'. unfold add_first. rewrite <- HL.
-        destruct (dget (hev_sid e) (our s)) eqn:Eo.
-        * unfold dmem. rewrite Eo.
-          assert (In (hev_sid e) (L s)).
-          { unfold L. apply in_app_iff. left. apply NNPP_in. } Abort.
+        rewrite arrivals_snoc. destruct i as [|e|l|]; cbn [arr_step]; unfold Lspec in HL'; try congruence.
+        rewrite HL', <- HL. unfold add_first.
+        assert (Hin : forall V (d : list (N * V)) k, dmem k d = true <-> In k (dkeys d)).
+        { intros V d k. unfold dmem. pose proof (dget_none_keys k d) as Hk. destruct (dget k d).
+          - split; [intros _|reflexivity]. destruct (in_dec N.eq_dec k (dkeys d)) as [Hy|Hy]; [assumption|]. apply Hk in Hy. discriminate.
+          - split; [discriminate|]. intros Hi. apply Hk in Hi; [contradiction|reflexivity]. }
+        destruct (dmem (hev_sid e) (our s)) eqn:Em.
+        { assert (Hi : In (hev_sid e) (L s)) by (unfold L; apply in_app_iff; left; now apply Hin).
+          apply existsb_eqb_in in Hi. now rewrite Hi. }
+        assert (Hno : ~ In (hev_sid e) (dkeys (our s))) by (rewrite <- Hin; congruence).
+        destruct (has_free (cc s)) eqn:Ef.
+        { destruct HQ as [HQ|HQ]; [|congruence]. unfold L. rewrite HQ. cbn. rewrite app_nil_r.
+          destruct (existsb (N.eqb (hev_sid e)) (dkeys (our s))) eqn:Ex; [apply existsb_eqb_in in Ex; contradiction|reflexivity]. }
+        destruct (dmem (hev_sid e) (queue s)) eqn:Emq.
+        { assert (Hi : In (hev_sid e) (L s)) by (unfold L; apply in_app_iff; right; now apply Hin).
+          apply existsb_eqb_in in Hi. now rewrite Hi. }
+        assert (Hnq : ~ In (hev_sid e) (dkeys (queue s))) by (rewrite <- Hin; congruence).
+        destruct (existsb (N.eqb (hev_sid e)) (L s)) eqn:Ex; [|reflexivity].
+        apply existsb_eqb_in in Ex. unfold L in Ex. apply in_app_iff in Ex. tauto.
+      + intros Hw. destruct (wf_first_snoc _ _ _ Hw) as [Hw1 Hw2]. apply Hb'; [auto|].
+        intros e -> Hn Hnq. apply (Hw2 e eq_refl); [tauto|]. rewrite <- arrivals_sids, <- HL.
+        unfold L. rewrite in_app_iff. apply dget_none_keys in Hn. tauto.
+  Qed.
+
+  (* T1: in every reachable state of a well-formed history the two maps are mutually inverse *)
+  Theorem map_bijective s h : reach s h -> wf_first [] h = true ->
+    forall c j, dget c (our s) = Some j <-> dget j (their s) = Some c.
+  Proof. intros Hr Hw. destruct (reach_inv _ _ Hr) as (_ & _ & Hb). exact (b_bij _ (Hb Hw)). Qed.
+
+  (* every server stream id handed out is below the library's next id: a later stream never reuses one *)
+  Theorem map_ids_fresh s h : reach s h -> wf_first [] h = true ->
+    forall j c, dget j (their s) = Some c -> j < next_id (cc s).
+  Proof. intros Hr Hw j c Hj. destruct (reach_inv _ _ Hr) as (_ & _ & Hb).
+    pose proof (b_hi _ (Hb Hw) _ _ Hj). pose proof (next_id_fresh (cc s)). lia. Qed.
+
+  (* T3: opened streams followed by waiting streams = arrival order; each stream once; nobody waits while there is capacity *)
+  Theorem map_fifo s h : reach s h -> alive s ->
+    dkeys (our s) ++ dkeys (queue s) = arrivals h /\ NoDup (arrivals h) /\ (queue s = [] \/ has_free (cc s) = false).
+  Proof. intros Hr Ha. destruct (reach_inv _ _ Hr) as (_ & H & _). destruct (H Ha) as [HQ HL].
+    split; [exact HL|]. split; [apply arrivals_nodup|exact HQ]. Qed.
+
+  (* none lost, repaired wrapper: in a reachable state whose connection is gone no stream is left waiting *)
+  Theorem map_dead_queue_empty s h : reach s h -> fq = true -> is_dead (cc s) = true -> queue s = [].
+  Proof. induction 1 as [|s h i s' o Hr IH Hs]; [reflexivity|]. apply (cl_event_Dq _ _ _ _ _ Hs). exact IH. Qed.
+
+  (* a stream is opened by a step only if the wrapped connection reported capacity, and it gets the library's next id *)
+  Theorem map_open_needs_capacity s h e s' o : reach s h -> cl_step s (IHttp e) = Ok (s', o) ->
+    dget (hev_sid e) (our s) = None -> dmem (hev_sid e) (our s') = true ->
+    has_free (cc s) = true /\ dget (hev_sid e) (our s') = Some (next_id (cc s)).
+  Proof. intros Hr Hs Hn Hm. destruct (reach_inv _ _ Hr) as (Hq & Ha & _).
+    destruct (is_dead (cc s)) eqn:Ed.
+    { pose proof (dead_absorbs _ _ _ _ _ Ed Hs) as ->. apply dmem_true in Hm. congruence. }
+    destruct (Ha Ed) as [HQ _]. eapply alloc_needs_capacity; eauto.
+    intros e0 [= <-] _ Hf. destruct HQ as [HQ|HQ]; [rewrite HQ; cbn; tauto|congruence]. Qed.
+
+  Theorem map_queue_wellformed s h : reach s h -> qinv s.
+  Proof. intros Hr. now destruct (reach_inv _ _ Hr). Qed.
 End Wrapper.
